@@ -966,7 +966,7 @@ def run(rep, tier):
             rep.fail("broken-tie", "extracted model driver does not build: " + log[-400:], case={})
     rep.coverage["build_s"] = round(time.time() - t0, 1)
     r = common.rng(PID)
-    ncases = 500 if tier == "quick" else 5000
+    ncases = 300 if tier == "quick" else 15000
     cases = [dict(c) for c in CORPUS]
     tries = 0
     while len(cases) < ncases and tries < 50 * ncases:
@@ -976,7 +976,7 @@ def run(rep, tier):
             cases.append(c)
     # the real objects (z3 terms) are needed for ByteVec.concretize: run in-process for a sample,
     # in a pool for the rest
-    n_inproc = 40 if tier == "quick" else 600
+    n_inproc = 30 if tier == "quick" else 600
     obs_list = [None] * len(cases)
     for i in range(min(n_inproc, len(cases))):
         obs_list[i] = _impl_worker(cases[i])
@@ -1056,7 +1056,7 @@ def run(rep, tier):
                     rep.fail("broken-tie", f"extracted Coq decode disagrees with the Python decoder of the spec: got {str(got)[:80]} want {str(want)[:80]}", case=pub)
         rep.coverage["coq_decode_runs"] = len(calls)
     # parse_type on valid and malformed type strings
-    pcases = gen_parse_cases(r, 300 if tier == "quick" else 4000)
+    pcases = gen_parse_cases(r, 200 if tier == "quick" else 8000)
     preal = [impl_parse(p) for p in pcases]
     pmodel = m.parallel_batch([("c12_parse", ser_jitem({"name": "", "type": "", "components": p})) for p in pcases]) if m else [None] * len(pcases)
     for p, a, mm in zip(pcases, preal, pmodel):
